@@ -23,7 +23,7 @@ COMPONENTS = {"real": ["ECAgent.Core._MetaAgent (per-class _components / _tag, a
                        "__getitem__/__len__/__contains__, tag property)", "Agent.__init__ (default tag)", "Environment / "
                        "SpaceWorld constructors"],
               "stub": ["agent classes are created by the harness with type(); component classes are harness-defined"]}
-PROBES = ["explicit_negative_tag", "explicit_tag_zero_with_nonzero_default", "tag_set_on_Agent_itself", "class_component_on_environment_class",
+PROBES = ["no_tag_spelled_as_none", "explicit_negative_tag", "explicit_tag_zero_with_nonzero_default", "tag_set_on_Agent_itself", "class_component_on_environment_class",
           "reject_duplicate_attach", "reject_detach_absent", "instance_component_attached", "subclass_instantiated_after_tag",
           "parent_instantiated_after_child_tag", "child_instantiated_after_parent_tag", "depth_3_chain", "sibling_isolation_checked", "class_created_mid_history", "class_cloned_from_namespace",
           "shared_namespace_dict", "model_lifecycle_op", "many_classes", "class_level_op_inside_creation_hook", "model_built_mid_history", "classes_sharing_module_and_qualname", "diamond_of_environment_and_agent_class", "default_tag_set_inside_the_constructor",
@@ -161,6 +161,9 @@ def generate(rng, tier):
                 o_["tag"] = rng.choice([-1, -1, -7, -2 ** 70, 2 ** 70, True, False])
             elif o_["op"] == "tag" and rng.random() < 0.3:
                 o_["v"] = rng.choice([-1, -3, 2 ** 70])
+    for o_ in ops:
+        if o_["op"] == "new" and o_.get("tag") is None and rng.random() < 0.2:
+            o_["spell_none"] = rng.choice(["kw", "pos"])
     many = rng.choice([140, 180, 260]) if rng.random() < (0.04 if tier == "thorough" else 0.015) else 0
     return {"classes": classes, "ops": ops, "many": many, "diamond": rng.random() < 0.08, "lazy_tag": rng.random() < 0.08}
 
@@ -384,6 +387,10 @@ def execute(sc, ctx):
 
             def make():
                 if rootkind == "Agent":
+                    if not kw and op.get("spell_none"):
+                        # "no tag" spelled out - what a subclass constructor with its own tag=None parameter forwards
+                        ctx.probe("no_tag_spelled_as_none")
+                        return cls(aid, m, tag=None) if op["spell_none"] == "kw" else cls(aid, m, None)
                     return cls(aid, m, **kw)
                 if kw:
                     return None      # environments take no tag argument
